@@ -472,6 +472,24 @@ def hash_provenance(prog, body, op, tb):
 def _is_hash_term(prog, body, t, tb, depth):
     if t[0] == "call" and t[1] == HASHER + "::hash":
         return True
+    if t[0] == "param" and depth < 4 and "{closure" not in body.name and not body.j.get("public", False):
+        # a private wrapper hands its parameter on: every call site of the wrapper must pass a hash (and there must be one)
+        sites = []
+        for cb in prog.bodies.values():
+            if cb.crate not in ("weechess_core", "weechess_engine", "weechess"):
+                continue
+            raw = prog.raw_body(cb.name) if hasattr(prog, "raw_body") else cb
+            for bb, ct in live_calls(raw, names=(body.name,)):
+                sites.append((raw, ct))
+        if not sites:
+            return False
+        for raw, ct in sites:
+            if t[1] - 1 >= len(ct["args"]):
+                return False
+            ctb = TermBuilder(prog, raw)
+            if not _is_hash_term(prog, raw, ctb.operand(ct["args"][t[1] - 1]), ctb, depth + 1):
+                return False
+        return True
     if t[0] == "var" and depth < 4:
         ds = tb.d.defs.get(t[1], [])
         if not ds:
